@@ -441,6 +441,16 @@ func URLRequest(t *rapid.T, ss *SchemaSpec, o URLOpts) *URLReq {
 				for _, a := range attrNames(resType) {
 					pool = append(pool, "--"+a, "---"+a, "+"+a, a+"-", " "+a)
 				}
+
+				// A path through a to-one relationship to an attribute of
+				// its target is not an attribute of the type either.
+				for _, rel := range resType.Rels {
+					if target := ss.Type(rel.ToType); rel.ToOne && target != nil {
+						for _, a := range attrNames(target) {
+							pool = append(pool, rel.FromName+"."+a, "-"+rel.FromName+"."+a)
+						}
+					}
+				}
 			}
 
 			n := rapid.IntRange(0, 5).Draw(t, "nrules")
